@@ -25,7 +25,7 @@ LEVEL_NOTE = "trusted: reference model (plain-Python verdict per test), pytest's
 RULE = ("one run = project (1-2 files, 1-6 tests, 1-6 sites inside test functions or helpers, previous content missing / right / wrong) x flag "
         "configuration x test order; distinct = (operation, flag set, position of the bad site, #tests sharing it, outcome class); non-trivial = at "
         "least one test whose verdict was judged")
-RULE += " Dimensions added while testing against seeded changes: comparisons executed by a worker thread that the test starts and joins; imperative pytest.skip / pytest.xfail after the comparisons; nested in-process sessions; Example-driven tests; numpy-like truth values."
+RULE += " Dimensions added while testing against seeded changes: comparisons executed by a worker thread that the test starts and joins; async def tests run by pytest-asyncio as tasks; nested in-process sessions incl. one that stops with a usage error (state-stack invariant); imperative pytest.skip / pytest.xfail after the comparisons; nested in-process sessions; Example-driven tests; numpy-like truth values."
 ASSUMPTIONS = ["scope of the statement: snapshots executed inside test functions, copyable values, stable arguments",
                "tests in which a comparison itself raised are not judged", "xfail tests are not judged (they run with a private inactive state)"]
 REAL_VS_STUB = {
@@ -135,6 +135,15 @@ def generate(seed, tier="quick"):
                 for e in t["events"]:
                     if e.get("t") == "cmp" and not e.get("via") and not e.get("access_only") and thr.random() < 0.5:
                         e["via"] = "thread"
+    arng = sub(seed, "async")
+    use_async = False
+    if arng.random() < 0.2:
+        # some tests are coroutines which pytest-asyncio runs as tasks: their snapshots are still executed inside that test
+        for f in prog["files"]:
+            for t in f["tests"]:
+                if not t.get("param") and not t.get("args") and arng.random() < 0.5:
+                    t["async"] = True
+                    use_async = True
     lrng = sub(seed, "leave")
     for f in prog["files"]:
         for t in f["tests"]:
@@ -153,7 +162,7 @@ def generate(seed, tier="quick"):
                 t["xfail"] = "false"  # xfail(False): not an expected failure, judged like every other test
         orng = sub(seed, "order")
         orng.shuffle(f["tests"])
-    return {"program": prog, "config": draw_config(sub(seed, "config")), "cold": sub(seed, "cold").random() < 0.04 and not nested, "pytester": nested}
+    return {"program": prog, "config": draw_config(sub(seed, "config")), "cold": sub(seed, "cold").random() < 0.04 and not nested and not use_async, "pytester": nested, "asyncio": use_async}
 
 
 def virtual_tests(prog):
@@ -200,7 +209,9 @@ def execute(case, ctx):
     events = [(fn, t["name"], e) for fn, t in vtests for e in t["events"]]
     xfail = {(f["name"], t["name"]) for f in prog["files"] for t in f["tests"] if t.get("xfail") is True}
     m = SessionModel(src, ops, approved).run([ev for ev in events if (ev[0], ev[1]) not in xfail], V.pyval)
-    spec = {"flags": cfg["flags"], "answers": cfg["answers"], "pytester": bool(case.get("pytester"))}
+    spec = {"flags": cfg["flags"], "answers": cfg["answers"], "pytester": bool(case.get("pytester")), "asyncio": bool(case.get("asyncio"))}
+    if case.get("asyncio"):
+        ctx.count("probe_async_tests_run_as_tasks")
     if case.get("pytester"):
         ctx.count("probe_nested_inprocess_session")
     new, res = sim.run_session(ctx, "plugin", files, spec)
